@@ -2,6 +2,8 @@ package main
 
 import (
 	"flag"
+	"regexp"
+	"runtime/pprof"
 	"runtime"
 	"runtime/debug"
 	"fmt"
@@ -21,6 +23,10 @@ func main() {
 	switch os.Args[1] {
 	case "verify":
 		cmdVerify(os.Args[2:])
+	case "check":
+		code := cmdCheck(os.Args[2:])
+		cleanupScratch()
+		os.Exit(code)
 	case "units":
 		w, err := loadWorld("/repo", nil)
 		if err != nil {
@@ -44,6 +50,8 @@ func cmdVerify(args []string) {
 	keep := fs.String("keep", "", "directory for failing queries")
 	verbose := fs.Bool("v", false, "list every obligation")
 	dump := fs.String("dump", "", "dump the full VC of matching units into this directory")
+	showModel := fs.String("showmodel", "", "regexp: print matching scalar constants of counterexample models")
+	split := fs.Bool("split", false, "on failure, try each conjunct of the goal separately (diagnostics)")
 	var subs multiFlag
 	fs.Var(&subs, "sub", "in-memory source rewrite FILE:::OLD:::NEW (relative to /repo), repeatable")
 	fs.Parse(args)
@@ -78,17 +86,46 @@ func cmdVerify(args []string) {
 				bad++
 			}
 		}
-		fmt.Printf("%-50s obligations=%d ok=%d failed=%d vacuity=%s %.1fs\n", u.Name, len(r.Obls), ok, bad, r.Vacuity, r.Secs)
+		maxq := 0
+		for _, ob := range r.Obls {
+			if ob.QueryBytes > maxq {
+				maxq = ob.QueryBytes
+			}
+		}
+		fmt.Printf("%-50s obligations=%d ok=%d failed=%d vacuity=%s %.1fs maxquery=%dKB\n", u.Name, len(r.Obls), ok, bad, r.Vacuity, r.Secs, maxq/1024)
+		if len(r.DeadReturns) > 0 {
+			fmt.Printf("   WARNING unreachable return sites: %v of %d\n", r.DeadReturns, len(r.Ex.returnReach))
+		}
 		for _, ob := range r.Obls {
 			if !ob.ok() || *verbose {
 				st := "?"
 				if ob.Result != nil {
-					st = fmt.Sprintf("%s %s %.2fs batch=%v %v ", ob.Result.Status, ob.Result.Solver, ob.Result.Secs, ob.Result.Batch, ob.Result.Answers) + ob.Result.Output
+					st = fmt.Sprintf("%s %s %.2fs cand=%v %v ", ob.Result.Status, ob.Result.Solver, ob.Result.Secs, ob.Result.Candidate, ob.Result.Answers)
 					if len(st) > 300 {
 						st = st[:300]
 					}
 				}
 				fmt.Printf("   %-8s %-40s %s | %s | %s\n", ob.Kind, ob.Label, ob.Pos, ob.Text, strings.ReplaceAll(st, "\n", " "))
+				if !ob.ok() && *showModel != "" && ob.Result != nil && ob.Result.Model != "" {
+					re := regexp.MustCompile(*showModel)
+					for _, kv := range modelScalars(ob.Result.Model) {
+						if re.MatchString(kv[0]) {
+							fmt.Printf("        %s = %s\n", kv[0], kv[1])
+						}
+					}
+				}
+				if !ob.ok() && *split {
+					cs := conjuncts(ob.Goal)
+					for i, c := range cs {
+						q := r.Ex.header() + r.Ex.prefix(ob.Index) + "(assert (not " + c + "))\n"
+						sr := solve(q, fmt.Sprintf("split%d", i), *timeout, false, false)
+						txt := c
+						if len(txt) > 400 {
+							txt = "..." + txt[len(txt)-400:]
+						}
+						fmt.Printf("        conjunct %d/%d: %s  %s\n", i+1, len(cs), sr.Status, txt)
+					}
+				}
 				if !ob.ok() && *keep != "" {
 					keepQuery(*keep, r.Ex, ob)
 				}
@@ -158,10 +195,30 @@ func memWatchdog() {
 	for {
 		time.Sleep(500 * time.Millisecond)
 		runtime.ReadMemStats(&ms)
-		if ms.HeapAlloc > 10<<30 {
+		if ms.HeapAlloc > memCapBytes() {
 			fmt.Println("FATAL: VC generation exceeded the 10 GiB memory cap")
+			if os.Getenv("GOVC_DEBUG") != "" {
+				pprof.Lookup("goroutine").WriteTo(os.Stderr, 1)
+			}
 			cleanupScratch()
 			os.Exit(3)
 		}
 	}
+}
+
+func memCapBytes() uint64 {
+	if os.Getenv("GOVC_DEBUG") != "" {
+		return 2 << 30
+	}
+	return 10 << 30
+}
+
+// modelScalars extracts (name, value) pairs of nullary definitions from a solver model.
+func modelScalars(model string) [][2]string {
+	var out [][2]string
+	re := regexp.MustCompile(`\(define-fun ([^ ]+) \(\) (Int|Bool|Real)\s+([^\n]+)\)`)
+	for _, m := range re.FindAllStringSubmatch(model, -1) {
+		out = append(out, [2]string{m[1], strings.TrimSpace(m[3])})
+	}
+	return out
 }
